@@ -223,6 +223,18 @@ def subst(t, args):
 
 
 def validate(doc) -> list[tuple[str, str]]:
+    """Clauses violated by the document.  A document the validator cannot even read (a missing
+    mandatory field, a value of the wrong JSON type) is reported as malformed, not as a harness error."""
+    try:
+        return _validate(doc)
+    except (KeyError, IndexError, TypeError, AttributeError) as e:
+        import traceback
+
+        fr = traceback.extract_tb(e.__traceback__)[-1]
+        return [("R-malformed", f"document not readable by the reference validator: {type(e).__name__}: {e} (at {fr.name})")]
+
+
+def _validate(doc) -> list[tuple[str, str]]:
     errs: list[tuple[str, str]] = []
     nodes = doc.get("nodes") or []
     edges = doc.get("edges") or []
